@@ -96,7 +96,7 @@ func ShrinkCandidates(w World) []World {
 			c.Parties[pi].InForm, c.Parties[pi].OutForm = FormStruct, FormStruct
 			add(c)
 		}
-		if p.InForm == FormPtrStruct {
+		if p.InForm == FormPtrStruct || p.InForm == FormPtrPtrStruct {
 			c := w.Clone()
 			c.Parties[pi].InForm = FormStruct
 			add(c)
@@ -247,6 +247,9 @@ func WellFormed(w World, allowRepeatPositional bool) bool {
 		if (p.InForm == FormBuilt) != (p.OutForm == FormBuilt) {
 			return false
 		}
+		if p.OutForm == FormPtrPtrStruct || p.InForm > FormPtrPtrStruct || p.OutForm > FormPtrPtrStruct {
+			return false
+		}
 		if !okList(p.In, p.InForm) || !okList(p.Out, p.OutForm) {
 			return false
 		}
@@ -283,6 +286,12 @@ func WellFormed(w World, allowRepeatPositional bool) bool {
 			if a.Gen == nil || a.Gen.Party < 0 || a.Gen.Party >= len(w.Parties) || len(w.Parties[a.Gen.Party].Out) == 0 {
 				return false
 			}
+		case ArgTypedMulti:
+			for _, ci := range a.Multi {
+				if ci < 0 || ci >= len(w.Args) || w.Args[ci].Kind != ArgTyped || w.Args[ci].Label.Sub != "" {
+					return false
+				}
+			}
 		case ArgNamed, ArgTyped:
 			if a.Label.Type < 0 || (a.Label.Type >= IfaceBase && a.Label.Type < TwinBase) || a.Label.Type >= NumTypesAll {
 				return false
@@ -296,6 +305,16 @@ func WellFormed(w World, allowRepeatPositional bool) bool {
 		for _, a := range o.Args {
 			if a < 0 || a >= len(w.Args) {
 				return false
+			}
+		}
+		if q := o.ShareArgsWith - 1; q >= 0 {
+			if q >= i || len(w.Ops[q].Args) > len(o.Args) {
+				return false
+			}
+			for k, a := range w.Ops[q].Args {
+				if o.Args[k] != a {
+					return false
+				}
 			}
 		}
 		switch o.Kind {
@@ -340,6 +359,18 @@ func Compact(w World) (World, bool) {
 	for _, p := range w.Parties {
 		for _, d := range p.Defaults {
 			usedArg[d] = true
+		}
+	}
+	for i, a := range w.Args {
+		if usedArg[i] {
+			for _, ci := range a.Multi {
+				usedArg[ci] = true
+			}
+		}
+	}
+	for _, o := range w.Ops {
+		if o.ShareArgsWith != 0 {
+			return w, false
 		}
 	}
 	usedParty := make([]bool, len(w.Parties))
@@ -391,6 +422,9 @@ func Compact(w World) (World, bool) {
 		}
 	}
 	for i := range c.Args {
+		for k, ci := range c.Args[i].Multi {
+			c.Args[i].Multi[k] = argMap[ci]
+		}
 		switch c.Args[i].Kind {
 		case ArgConv, ArgConvFunc:
 			c.Args[i].Party = partyMap[c.Args[i].Party]
